@@ -83,6 +83,26 @@ def run(ctx):
                             okk = bool(es) and all(_returns_before_loop(cfg, tgt, loop) and _assigns_const(body, cfg, tgt, True, loop) for _, tgt in es)
                             detail = "MatchSucceeded edge returns true: %s" % okk
         ctx.check(okk, "R2", "first-matching-sibling-wins:%s" % tag, ctx.where(body), detail)
+        if tag == "check":
+            # a sibling without conditions whose children do not match must not end the search
+            recs = [(bb, tm) for bb, tm in body.calls() if callee_name(tm) == body.id]
+            good = bool(recs)
+            for bb, tm in recs:
+                loop = [l for l in loops if bb in l]
+                if not loop:
+                    good = False
+                    continue
+                loop = min(loop, key=len)
+                cont = False
+
+                def mr(d, bb=bb):
+                    return d[0] == "call" and d[1] == body.id and d[3] == bb
+                for sbb, d, te, fe in bool_switches(P, body, mr):
+                    cont = all(tgt in loop for _, tgt in fe) and all(_assigns_const(body, cfg, tgt, True, loop) for _, tgt in te)
+                good = good and cont
+            ctx.check(good, "R2", "unconditional-sibling-without-matching-children-is-skipped", ctx.where(body),
+                      "when a condition-less sibling's sub-policies do not match, the search must continue with the next sibling "
+                      "(return true only on the true edge of the recursive check, stay in the loop on the false edge)")
 
     # ---------------- R3: match outcome gates application
     T = terms(P, A1)
